@@ -409,12 +409,24 @@ pub struct Prepared {
     subset_cache: Mutex<BTreeMap<Vec<usize>, BTreeMap<String, String>>>,
 }
 
+/// Run a sequential evaluation on a thread with a large stack (deeply nested policies, dev profile).
+fn on_big_stack<T: Send>(f: impl FnOnce() -> T + Send) -> T {
+    std::thread::scope(|s| {
+        std::thread::Builder::new()
+            .stack_size(if cfg!(debug_assertions) { 256 << 20 } else { 64 << 20 })
+            .spawn_scoped(s, f)
+            .expect("spawn evaluation thread")
+            .join()
+            .unwrap_or_else(|p| std::panic::resume_unwind(p))
+    })
+}
+
 /// Streams per destination of a sequential scan over `subset` (in that order) of the files.
 fn sequential_streams(w: &Workload, forms: &[Sexp], subset: &[usize]) -> Result<BTreeMap<String, String>, EvalErr> {
     let mut knobs = knobs_for(w, true);
     knobs.partition = vec![subset.to_vec()];
     let rt = Arc::new(Runtime::new(false, w.files.clone(), knobs));
-    rt.run_program(forms)?;
+    on_big_stack(|| rt.run_program(forms))?;
     let dests = rt.destinations();
     let mut out: BTreeMap<String, String> = BTreeMap::new();
     for e in rt.log.lock().unwrap().iter() {
@@ -503,7 +515,7 @@ pub fn prepare_program(w: &Workload, program: String, io_keys: Option<Vec<u32>>)
         Err(e) => return Prep::Harness(format!("emitted program of a benign workload is unreadable: {e}\n{program}")),
     };
     let rt = Arc::new(Runtime::new(false, w.files.clone(), knobs_for(w, true)));
-    match rt.run_program(&forms) {
+    match on_big_stack(|| rt.run_program(&forms)) {
         Ok(()) => {}
         Err(EvalErr::Unsupported(e)) => return Prep::Harness(format!("stub runtime cannot evaluate the program: {e}\n{program}")),
         Err(EvalErr::Runtime(e)) | Err(EvalErr::Thrown(e, _)) => {
@@ -653,7 +665,9 @@ pub fn execute(w: &Workload, prep: &Prepared, strategy: Strategy, seed: u64) -> 
     let (scheduler, shared) = SimScheduler::new(strategy, seed);
     *rt.sched.lock().unwrap() = Some(shared.clone());
     let mut config = shuttle::Config::new();
-    config.stack_size = 1 << 20;
+    // scanner threads evaluate the policy recursively: a report with hundreds of alternatives nests
+    // deeply, and frames are several times larger without optimisation
+    config.stack_size = if cfg!(debug_assertions) { 64 << 20 } else { 8 << 20 };
     config.failure_persistence = shuttle::FailurePersistence::None;
     config.max_steps = shuttle::MaxSteps::FailAfter(step_cap(prep));
     config.silence_warnings = true;
